@@ -17,6 +17,7 @@ import (
 	"sync"
 	"time"
 
+	"github.com/google/martian/v3/h2"
 	"github.com/google/martian/v3/mitm"
 
 	"verif/harness/internal/core"
@@ -57,40 +58,6 @@ func (P) Nontrivial(ops []string, impl []string) bool {
 
 // ---- harness CA and a pool of configs (one RSA key per config; generated in parallel) ----
 
-var (
-	caOnce sync.Once
-	caCert *x509.Certificate
-	caKey  *rsa.PrivateKey
-	caPool *x509.CertPool
-	cfgCh  chan *mitm.Config
-)
-
-func setupCA() {
-	caOnce.Do(func() {
-		var err error
-		// 30 days: every leaf window the cases produce (validity up to 24 h) and every CurrentTime the
-		// vfy/vwl ops choose lies well inside the CA's own window.
-		caCert, caKey, err = mitm.NewAuthority("verif-c06-ca", "Verif C06 Authority", 30*24*time.Hour)
-		if err != nil {
-			panic(err)
-		}
-		caPool = x509.NewCertPool()
-		caPool.AddCert(caCert)
-		cfgCh = make(chan *mitm.Config, 6)
-		for i := 0; i < 6; i++ {
-			go func() {
-				for {
-					c, err := mitm.NewConfig(caCert, caKey)
-					if err != nil {
-						panic(err)
-					}
-					cfgCh <- c
-				}
-			}()
-		}
-	})
-}
-
 const defaultOrg = "Martian Proxy"
 
 type ex struct {
@@ -104,6 +71,10 @@ type ex struct {
 	last      *x509.Certificate // leaf most recently served by get/hs (ops vhl, vwl)
 	lastHost  string            // the host that request named (SNI or fallback)
 	tainted   bool              // real time ran ahead of the model's clock: oracle only from here on
+	auth      *authority        // the CA of this case (op `ca`, default RSA from NewAuthority)
+	realtime  bool              // op `realtime`: get/hs/conc tell the model the wall clock of the call
+	callT0    time.Time         // GetCertificate call of the last handshake
+	callT1    time.Time
 }
 
 func (P) NewExec() core.Exec {
@@ -111,10 +82,16 @@ func (P) NewExec() core.Exec {
 }
 func (e *ex) Close() {}
 
+func (e *ex) ca() *authority {
+	if e.auth == nil {
+		e.auth = getAuthority("rsa")
+	}
+	return e.auth
+}
+
 func (e *ex) cfg() *mitm.Config {
 	if e.mc == nil {
-		setupCA()
-		e.mc = <-cfgCh
+		e.mc = <-e.ca().cfgs
 	}
 	return e.mc
 }
@@ -218,7 +195,7 @@ func (e *ex) check(mode, fb, sni string, s served) core.Result {
 	if len(s.tlsc.Certificate) < 1 || !bytes.Equal(s.tlsc.Certificate[0], leaf.Raw) {
 		return fail("c06:chain-shape", "presented chain does not start with the leaf")
 	}
-	if err := leaf.CheckSignatureFrom(caCert); err != nil {
+	if err := leaf.CheckSignatureFrom(e.ca().cert); err != nil {
 		return fail("c06:not-verified:authority", "leaf for %q is not signed by the configured CA: %v", host, err)
 	}
 	ser := leaf.SerialNumber.String()
@@ -251,8 +228,8 @@ func (e *ex) check(mode, fb, sni string, s served) core.Result {
 		return fail("c06:wrong-name", "host %q names %q but the leaf carries DNSNames=%q IPs=%v", host, name, leaf.DNSNames, leaf.IPAddresses)
 	}
 	if e.validity >= time.Second {
-		_, err0 := leaf.Verify(x509.VerifyOptions{DNSName: name, Roots: caPool, CurrentTime: s.t0})
-		_, err1 := leaf.Verify(x509.VerifyOptions{DNSName: name, Roots: caPool, CurrentTime: s.t1})
+		_, err0 := leaf.Verify(x509.VerifyOptions{DNSName: name, Roots: e.ca().pool, CurrentTime: s.t0})
+		_, err1 := leaf.Verify(x509.VerifyOptions{DNSName: name, Roots: e.ca().pool, CurrentTime: s.t1})
 		if err0 != nil && err1 != nil {
 			return fail("c06:not-verified:"+verr(err1), "leaf for %q does not verify for %q at the time of the call: %v", host, name, err1)
 		}
@@ -350,10 +327,29 @@ func (e *ex) tlsConfig(mode, fb string) *tls.Config {
 // leaf (and before the `expire` op) may see it expired while the model still reuses it. That is a property of the
 // schedule, not of the code: from then on the case is judged by the oracle alone (SkipModel), never compared.
 func (e *ex) hazard() {
-	if !e.shortAt.IsZero() && time.Since(e.shortAt) > 900*time.Millisecond && !e.tainted {
+	if !e.realtime && !e.shortAt.IsZero() && time.Since(e.shortAt) > 900*time.Millisecond && !e.tainted {
 		core.Count("timing-hazard(op-later-than-900ms-after-short-cert):rest-of-case-oracle-only")
 		e.tainted = true
 	}
+}
+
+// rt: in a realtime case the model is told the wall clock (unix ms) read just before the call. Every clock read of
+// the call (Verify, the two time.Now() of the template) lies in [t0, t1]; the outcome is a function of t0 alone when
+// t0 and t1 fall into the same whole second S and t0 >= S.001 (certificate bounds are whole seconds). Otherwise the
+// model cannot know which side of a second boundary the call saw: the rest of the case is oracle-only.
+func (e *ex) rt(r *core.Result, op string, t0, t1 time.Time, rest string) {
+	if !e.realtime || t0.IsZero() {
+		return
+	}
+	ms := t0.UnixMilli()
+	if t0.Unix() != t1.Unix() || ms%1000 == 0 {
+		if !e.tainted {
+			core.Count("realtime:call-straddles-a-second:rest-of-case-oracle-only")
+		}
+		e.tainted = true
+		return
+	}
+	r.ModelOp = fmt.Sprintf("%s %d %s", op, ms, rest)
 }
 
 func (e *ex) Do(op string) core.Result {
@@ -428,9 +424,47 @@ func (e *ex) do(op string) core.Result {
 			r.Impl = e.show(s, base, nil, "")
 			e.remember(t[1], fb, sni, s)
 			core.Count("op:get-" + t[1] + sniKind(sni))
+			e.rt(&r, "getat", s.t0, s.t1, strings.Join(t[1:], " "))
 			return r
 		}
-		return e.handshake(t[1], fb, sni, base)
+		e.callT0, e.callT1 = time.Time{}, time.Time{}
+		r := e.handshake(t[1], fb, sni, base)
+		e.rt(&r, "hsat", e.callT0, e.callT1, strings.Join(t[1:], " "))
+		return r
+	case "ca":
+		if len(t) != 2 || e.mc != nil || e.auth != nil {
+			break
+		}
+		a := getAuthority(t[1])
+		if a == nil {
+			break
+		}
+		e.auth = a
+		core.Count("ca:" + t[1])
+		return core.Result{Impl: "ok"}
+	case "h2":
+		if len(t) != 2 {
+			break
+		}
+		if t[1] == "1" {
+			e.cfg().SetH2Config(&h2.Config{AllowedHostsFilter: func(string) bool { return true }})
+		} else {
+			e.cfg().SetH2Config(nil)
+		}
+		return core.Result{Impl: "ok"}
+	case "realtime":
+		e.realtime = true
+		return core.Result{Impl: "ok"}
+	case "sleep":
+		if len(t) != 2 {
+			break
+		}
+		n, err := strconv.Atoi(t[1])
+		if err != nil || n < 0 || n > 5000 {
+			break
+		}
+		time.Sleep(time.Duration(n) * time.Millisecond)
+		return core.Result{Impl: "ok"}
 	case "conc":
 		if len(t) != 2 {
 			break
@@ -446,7 +480,9 @@ func (e *ex) do(op string) core.Result {
 			}
 		}
 		e.hazard()
-		return e.concurrent(hosts)
+		r := e.concurrent(hosts)
+		e.rt(&r, "concat", e.callT0, e.callT1, t[1])
+		return r
 	case "vh", "vfy", "vhl", "vwl":
 		return e.verifyOp(t)
 	case "shp":
@@ -504,6 +540,7 @@ func (e *ex) handshake(mode, fb, sni string, base map[string]bool) core.Result {
 		rec.t0 = time.Now()
 		rec.tlsc, rec.err = orig(hi)
 		rec.t1 = time.Now()
+		e.callT0, e.callT1 = rec.t0, rec.t1
 		return rec.tlsc, rec.err
 	}
 	cc, sc := net.Pipe()
@@ -566,7 +603,12 @@ func (e *ex) handshake(mode, fb, sni string, base map[string]bool) core.Result {
 		for _, c := range st.PeerCertificates[1:] {
 			inter.AddCert(c)
 		}
-		if _, err := st.PeerCertificates[0].Verify(x509.VerifyOptions{DNSName: name, Roots: caPool, Intermediates: inter, CurrentTime: rec.t1}); err != nil {
+		// at the start or at the end of the GetCertificate call (the documented residual window: one call)
+		_, err := st.PeerCertificates[0].Verify(x509.VerifyOptions{DNSName: name, Roots: e.ca().pool, Intermediates: inter, CurrentTime: rec.t0})
+		if err != nil {
+			_, err = st.PeerCertificates[0].Verify(x509.VerifyOptions{DNSName: name, Roots: e.ca().pool, Intermediates: inter, CurrentTime: rec.t1})
+		}
+		if err != nil {
 			return core.Result{Impl: r.Impl, Fail: fmt.Sprintf("chain received by the client does not verify for %q: %v", name, err), Sig: "c06:not-verified:" + verr(err)}
 		}
 	}
@@ -593,6 +635,7 @@ func (e *ex) concurrent(hosts []string) core.Result {
 			res[i] = s
 		}(i, h)
 	}
+	e.callT0, e.callT1 = time.Now(), time.Time{}
 	close(start)
 	done := make(chan struct{})
 	go func() { wg.Wait(); close(done) }()
@@ -602,6 +645,7 @@ func (e *ex) concurrent(hosts []string) core.Result {
 		return core.Result{Impl: "conc hang", Fail: "concurrent requesters did not return", Sig: "hang"}
 	}
 	core.Count("op:conc")
+	e.callT1 = time.Now()
 	alias := map[string]int{}
 	var out []string
 	var first core.Result
